@@ -115,6 +115,54 @@ def stage_quantifiers(ctx: Ctx):
                        len(terms), [meta[i] for i in failed])
 
 
+def stage_backrefs(ctx: Ctx):
+    """capturing elements and back-references (MTAG), flat and inside quantified sub-lists, vs re.fullmatch (accept/reject)"""
+    import fst
+    from fst.match import M, MTAG, MQ, MName, MList
+    rng = ctx.rng
+    targets = [''.join(t) for n in range(0, 7) for t in itertools.product('ab', repeat=n)]
+    trees = {t: fst.FST('[' + ', '.join(t) + ']', 'expr') for t in targets}
+    ep = lambda ch: ... if ch == '.' else MName(ch)
+    fams = []
+    for pre in ('', 'a', '.'):
+        for suf in ('', 'b', '.'):
+            for (mn, mx, q) in ((0, None, '*'), (1, None, '+'), (0, 1, '?'), (1, 2, '{1,2}'), (0, 2, '{0,2}')):
+                for greedy in (True, False):
+                    for tagged in (False, True):
+                        def mk(pre=pre, suf=suf, mn=mn, mx=mx, greedy=greedy, tagged=tagged):
+                            cls = MQ if greedy else MQ.NG
+                            inner = [M(t=...), MTAG('t')]
+                            qq = cls(min=mn, max=mx, g=inner) if tagged else cls(inner, min=mn, max=mx)
+                            return MList(elts=[ep(c) for c in pre] + [qq] + [ep(c) for c in suf])
+                        fams.append((f'{pre}(?:(.)\\1){q}{"" if greedy else "?"}{suf}', mk))
+    fams.append(('(.)\\1', lambda: MList(elts=[M(t=...), MTAG('t')])))
+    fams.append(('(.)(.)\\2\\1', lambda: MList(elts=[M(t=...), M(u=...), MTAG('u'), MTAG('t')])))
+    fams.append(('(.)(?:.)*\\1', lambda: MList(elts=[M(t=...), MQ(..., min=0, max=None), MTAG('t')])))
+    fams.append(('(.)(?:\\1)*b', lambda: MList(elts=[M(t=...), MQ(MTAG('t'), min=0, max=None), MName('b')])))
+    if not ctx.thorough:
+        fams = rng.sample(fams[:-4], 40) + fams[-4:]
+    for rxs, mk in fams:
+        rxs = rxs.replace('\\\\', '\\')
+        try:
+            pat = mk()
+        except Exception as e:
+            ctx.broken.append({'kind': 'harness', 'name': 'stage_backrefs', 'detail': f'{rxs}: {e!r}'})
+            continue
+        rx = re.compile(rxs)
+        for t in (targets if ctx.thorough else rng.sample(targets, 70)):
+            try:
+                m = pat.match(trees[t])
+            except Exception as e:
+                ctx.violation(f'backref-raise|{rxs}', 'matching raised', {'regex': rxs, 'target': t, 'error': repr(e)})
+                break
+            rm = rx.fullmatch(t)
+            ctx.tick(('backref', rxs, t), 'backref:' + ('accept' if rm else 'reject'))
+            if (m is None) != (rm is None):
+                ctx.violation(f'backref-accept|{rxs}', 'pattern with back-reference accepts/rejects differently from the corresponding regular expression',
+                              {'regex': rxs, 'target': t, 'fst_matches': m is not None, 're_matches': rm is not None})
+                break
+
+
 # ---- search / structure ------------------------------------------------------------------------------------------------
 
 def pattern_pool():
@@ -233,6 +281,7 @@ def run(ctx: Ctx):
     if ok:
         ctx.build_props()
     run_guarded(ctx, stage_quantifiers)
+    run_guarded(ctx, stage_backrefs)
     progs = corpus(ctx.rng, gen=ctx.scale(6, 60))
     run_guarded(ctx, stage_search, progs)
     run_guarded(ctx, stage_structure, [p for p in progs if len(p) < 1200])
